@@ -150,7 +150,9 @@ def parse(
                     # If there's no condition, it's an infinite loop
                     condition = [lexer.Token(lexer.TokenType.NUMBER, "1")]
                 else:
-                    condition = parse(branches[0], structure_cls)
+                    # The condition runs before the loop's context value
+                    # is pushed: break / continue there belong to no loop
+                    condition = parse(branches[0])
                 structures.append(
                     structure.WhileLoop(
                         condition, parse(branches[-1], structure_cls)
